@@ -276,7 +276,10 @@ def _wrap_sni_socket(sock: socket.socket, sslopt: dict, hostname, check_hostname
             context.check_hostname = False
             context.verify_mode = ssl.CERT_NONE
         else:
-            context.check_hostname = sslopt.get("check_hostname", True)
+            # None means "not set", as for the other options (the ssl module
+            # would take it as False)
+            check = sslopt.get("check_hostname")
+            context.check_hostname = True if check is None else check
             context.verify_mode = sslopt.get("cert_reqs", ssl.CERT_REQUIRED)
 
         if "ciphers" in sslopt:
